@@ -892,6 +892,23 @@ func init() {
 				}
 				mk(to, []reaction{answer(a), {pieces: ps}})
 			}
+			// a Read that returns (0, nil) - io.Reader allows it, TCP does not do it: the call fails at once and the connection
+			// stays open (receive returns without Disconnect); before any data, inside the authentication reply, inside the user
+			// reply; then another call on the same connection
+			for i := 0; i < tierPick(tier, 9, 60); i++ {
+				to := []int64{1000000, 50000000, sec3}[r.intn(3)]
+				a, u := pcs()
+				zero := piece{data: []byte{}}
+				cutA, cutU := 1+r.intn(len(a)-1), 1+r.intn(len(u)-1)
+				switch i % 3 {
+				case 0:
+					mk(to, []reaction{{pieces: []piece{zero, {data: a}}}, answer(u)}, nonceRequest(3), nonceRequest(4))
+				case 1:
+					mk(to, []reaction{{pieces: []piece{{data: a[:cutA]}, zero, {data: a[cutA:]}}}, answer(u)}, nonceRequest(3), nonceRequest(4))
+				default:
+					mk(to, []reaction{answer(a), {pieces: []piece{{data: u[:cutU]}, zero, {data: u[cutU:]}}}, answer(u)}, nonceRequest(3), nonceRequest(4))
+				}
+			}
 			// complete frames that carry no message (the client goes on reading): each within the timeout, for ever or followed by
 			// silence - as answer to the authentication request and to the user request
 			for i := 0; i < tierPick(tier, 12, 120); i++ {
@@ -1089,11 +1106,21 @@ func init() {
 		run: func(c string) string {
 			sc := parseSession(c)
 			r := runSession(sc)
-			return sessionLine(sc, r) + " ## " + scanLog(r.logtext, sc.pass, c)
+			scan := scanLog(r.logtext, sc.pass, c)
+			// the logger is shared: after every call - successful or not - its level must be what it was (C11_no_secret: level restored)
+			for i, lv := range r.levels {
+				if lv != sc.level && scan == "clean" {
+					scan = fmt.Sprintf("LEVEL after call %d the logger's level is %d, it was %d before (not restored on this path)", i+1, lv, sc.level)
+				}
+			}
+			return sessionLine(sc, r) + " ## " + scan
 		},
 		pred: func(c, res string) string {
 			if strings.HasPrefix(res, "PANIC") || res == "HANG" {
 				return "logging: " + shorten(res, 200)
+			}
+			if i := strings.Index(res, " ## "); i >= 0 && strings.HasPrefix(res[i+4:], "LEVEL ") {
+				return "the log level is lowered for the authentication and not restored: " + res[i+10:]
 			}
 			if i := strings.Index(res, " ## "); i >= 0 && res[i+4:] != "clean" {
 				return "the log reveals a secret: " + res[i+4:]
